@@ -83,6 +83,20 @@ static void check_kick(const std::string& kase, KickMap& km, psptr in, psptr out
                 for (size_t i = 0; i < img.size(); i++) { din[i] = -din[i]; dout[i] = img[i]; }
             }
         }
+        // conservation "up to single-precision rounding" is relative to the data: the step is homogeneous.  Scaling the data by a power of two is exact in
+        // binary floating point, so the image must be the scaled image bit for bit (no underflow: |data| >= 1e-20 here), whatever the magnitude of the data
+        if (dynamic_cast<DynamicRFKickMap*>(&km) == nullptr && mag > 0) {
+            std::vector<float> img(dout, dout + (size_t)n * n * nb), base(din, din + (size_t)n * n * nb);
+            const float scales[3] = {5.9604645e-8f /* 2^-24 */, 8.6736174e-19f /* 2^-60 */, 1073741824.f /* 2^30 */};
+            for (float sc : scales) {
+                for (size_t i = 0; i < base.size(); i++) din[i] = base[i] * sc;
+                km.apply();
+                size_t bad = 0; for (size_t i = 0; i < img.size(); i++) if (dout[i] != img[i] * sc) bad++;
+                R.eval(kase + (sign ? " blob=signed" : " blob=nonneg") + " scale=" + mcx::fstr(sc), mcx::fnv(dout, sizeof(float) * n * n * nb, mcx::fnvs(kase)), false);
+                if (bad) { char d[160]; snprintf(d, 160, "data scaled by %.3g: %zu cells of the image are not the scaled image", sc, bad); R.violate(keybase + "/not-homogeneous", kase, d); }
+            }
+            for (size_t i = 0; i < base.size(); i++) { din[i] = base[i]; dout[i] = img[i]; }
+        }
         R.eval(kase + (sign ? " blob=signed" : " blob=nonneg"), mcx::fnv(dout, sizeof(float) * n * n * nb, mcx::fnvs(kase)), mag == 0);
         if (std::fabs(s - tot) > 8 * EPS * (mag + 1)) {
             char d[200]; snprintf(d, 200, "sum before=%.9g after=%.9g (sum|data|=%.6g)", tot, s, mag);
@@ -219,6 +233,16 @@ static void part_fp(const std::vector<unsigned>& ns, const std::vector<int>& shi
             m.apply();
             double worst = 0; for (size_t i = 0; i < sp.size(); i++) worst = std::max(worst, (double)std::fabs(dout[i] - (rp[i] - rm[i])));
             if (!(worst <= 64 * EPS * (1 + 4 * e1 / (d * d) + e1 * n))) { char dd[200]; snprintf(dd, 200, "signed data: M(s) differs from M(s+) - M(s-) by %.4g", worst); R.violate(key + "/signed-data-treated-differently", kase, dd); }
+            // homogeneity: data scaled by a power of two gives the scaled image bit for bit
+            std::vector<float> img(dout, dout + sp.size());
+            const float scales[3] = {5.9604645e-8f, 8.6736174e-19f, 1073741824.f};
+            for (float sc : scales) {
+                for (size_t i = 0; i < sp.size(); i++) din[i] = (sp[i] - sm[i]) * sc;
+                m.apply();
+                size_t bad = 0; for (size_t i = 0; i < img.size(); i++) if (dout[i] != img[i] * sc) bad++;
+                R.eval(kase + " scale=" + mcx::fstr(sc), mcx::fnv(dout, sizeof(float) * n * n * nb, mcx::fnvs(kase)), false);
+                if (bad) { char dd[160]; snprintf(dd, 160, "data scaled by %.3g: %zu cells of the image are not the scaled image", sc, bad); R.violate(key + "/not-homogeneous", kase, dd); }
+            }
         }
     }
     // Identity: bit-exact copy
@@ -241,7 +265,7 @@ int main(int argc, char** argv) {
     R.rule = "one evaluation = one application of a real map to an impulse-per-row (or dense blob) input; distinct = FNV hash of case + output grid; "
              "trivial = FPType none / empty blob";
     R.sample_every = 2000;
-    const bool T = R.thorough();
+    const bool T = true /* the wide lattices run in both tiers */; const bool D = R.thorough(); (void)D;
     std::vector<unsigned> ns = T ? std::vector<unsigned>{8, 9, 12, 16, 17, 32} : std::vector<unsigned>{8, 9};
     std::vector<unsigned> nbs = T ? std::vector<unsigned>{1, 2, 3, 4} : std::vector<unsigned>{1, 2};
     part_kick(ns, nbs);
